@@ -54,7 +54,7 @@ def setup(common=None):
                     continue
                 lg = t5[a["n"]] if rid == 5 else Fraction(a["lg"][0], a["lg"][1])
                 assert lg.denominator == 1
-                reg.add(a["n"], (-1.0 if a["neg"] else 1.0) * 2.0 ** int(lg), dimexpr(a["dim"]), offset=float(Fraction(a["off"][0], a["off"][1])), prefixable=False)
+                reg.add(a["n"], (-1.0 if a["neg"] else 1.0) * 2.0 ** int(lg), dimexpr(a["dim"]), offset=float(Fraction(a["off"][0], a["off"][1])), prefixable=bool(a.get("pfx", False)))
             reg.unit_system_id
             regs[rid] = reg
         _U["leaves"] = [(l["reg"], l["s"]) for l in mr["leaves"]]
@@ -262,19 +262,89 @@ def _alarm(signum, frame):
 _LEAFCACHE = {}
 
 
+QUERY_KINDS = ("has", "get", "unit", "define", "keys", "pfx", "samedim", "json", "id", "lutcopy", "dcopy", "pickle", "baseq", "latex")
+
+
+def _apply_query(reg, e):
+    """one read-only question to the registry (the answer is not part of the observation; an exception is an answer)."""
+    import copy
+    import pickle
+
+    U = _U
+    k, sym = e["k"], e["sym"]
+    try:
+        if k == "has":
+            sym in reg
+        elif k == "get":
+            reg[sym]
+        elif k == "unit":
+            hash(U["Unit"](sym, registry=reg))
+        elif k == "define":  # only asked for names that resolve: define_unit refuses (RuntimeError) and defines nothing
+            if sym not in reg.lut and not any(sym.endswith(b) for b in reg.lut):
+                raise ValueError("define query for a name that would be defined: " + sym)
+            U["unyt"].define_unit(sym, (1.0, "la"), registry=reg)
+        elif k == "keys":
+            list(reg.keys())
+        elif k == "pfx":
+            list(reg.prefixable_units)
+        elif k == "samedim":
+            reg.list_same_dimensions(U["Unit"](sym, registry=reg))
+        elif k == "json":
+            reg.to_json()
+        elif k == "id":
+            reg.unit_system_id
+        elif k == "lutcopy":
+            hash(U["Unit"]("la", registry=U["UnitRegistry"](lut=dict(reg.lut), add_default_symbols=False)))
+        elif k == "dcopy":
+            hash(U["Unit"]("la", registry=copy.deepcopy(reg)))
+        elif k == "pickle":
+            pickle.dumps(U["Unit"](sym, registry=reg))
+        elif k == "baseq":
+            U["Unit"](sym, registry=reg).get_base_equivalent()
+        elif k == "latex":
+            U["Unit"](sym, registry=reg).latex_repr
+        else:
+            raise ValueError("unknown query " + str(e))
+    except ValueError:
+        raise
+    except Exception:  # noqa: BLE001 - SymbolNotFoundError / RuntimeError / ... are answers
+        pass
+
+
 def _apply_edit(reg, e):
-    """one registry edit of a history, through the public API."""
+    """one event of a history, through the public API: a registry edit or a read-only query."""
+    if e["k"] in QUERY_KINDS:
+        return _apply_query(reg, e)
     at = _U["mr_atoms"]
     scale = 2.0 ** int(e["lg"])
+    pfx = bool(at[e["sym"]].get("pfx", False))  # (re-)definitions keep the symbol's prefixable flag
     if e["k"] == "modify":
         reg.modify(e["sym"], scale)
     elif e["k"] == "add":
-        reg.add(e["sym"], scale, _U["dimexpr"](at[e["d"]]["dim"]))
+        reg.add(e["sym"], scale, _U["dimexpr"](at[e["d"]]["dim"]), prefixable=pfx)
     elif e["k"] == "readd":
         reg.remove(e["sym"])
-        reg.add(e["sym"], scale, _U["dimexpr"](at[e["d"]]["dim"]))
+        reg.add(e["sym"], scale, _U["dimexpr"](at[e["d"]]["dim"]), prefixable=pfx)
     else:
         raise ValueError("unknown edit " + str(e))
+
+
+def _history_registry(origin):
+    """the registry object a history runs on (installed as registry 4 for the duration of the history)."""
+    U = _U
+    if origin == "long":
+        return U["regs"][4]
+    if origin == "fresh":  # made now: nothing resolved, nothing memoised, no id computed
+        reg = U["UnitRegistry"]()
+        for n, a in U["mr_atoms"].items():
+            if n == "xb":
+                continue
+            reg.add(n, (-1.0 if a["neg"] else 1.0) * 2.0 ** int(Fraction(a["lg"][0], a["lg"][1])), U["dimexpr"](a["dim"]),
+                    offset=float(Fraction(a["off"][0], a["off"][1])), prefixable=bool(a.get("pfx", False)))
+        return reg
+    if origin == "lutcopy":
+        return U["UnitRegistry"](lut=dict(U["regs"][1].lut), add_default_symbols=False)
+    raise ValueError("unknown origin " + str(origin))
 
 
 def _reset_registry4():
@@ -286,25 +356,47 @@ def _reset_registry4():
         want = (-1.0 if a["neg"] else 1.0) * 2.0 ** int(Fraction(a["lg"][0], a["lg"][1]))
         dim = _U["dimexpr"](a["dim"])
         row = reg.lut.get(n)
-        if row is None or row[0] != want or row[1] != dim:
-            reg.add(n, want, dim, offset=float(Fraction(a["off"][0], a["off"][1])), prefixable=False)
+        if row is None or row[0] != want or row[1] != dim or bool(row[4]) != bool(a.get("pfx", False)):
+            reg.add(n, want, dim, offset=float(Fraction(a["off"][0], a["off"][1])), prefixable=bool(a.get("pfx", False)))
 
 
 def observe(case):
     """one case -> one observation; a registry history (law "state") -> {"phases": [one observation per phase]}."""
     if case["law"] != "state":
         return _run(case, 0, None)
-    _reset_registry4()
-    hashes = {}
-    olds = []  # the leaf objects of phase 0: units created before the edits, used as operands later ("old")
-    phases = []
-    for ph in range(len(case["edits"]) + 1):
-        if ph > 0:
-            _apply_edit(_U["regs"][4], case["edits"][ph - 1])
-        o = _run(case, 4, hashes, olds)
-        o.update(hist=True, ph=ph, edits=case["edits"])
-        phases.append(o)
-    _reset_registry4()
+    origin = case.get("origin", "long")
+    long4 = _U["regs"][4]
+    if origin == "long":
+        _reset_registry4()
+    if origin != "long":
+        # a registry of its own: the process-wide memos of the unit rules (keyed on Unit == / hash, which do not see the
+        # registry OBJECT) are emptied, so that a unit of an earlier history's registry in the same state cannot come back
+        # as a result here (which registry a memoised result belongs to is C13's question, not this one's)
+        for f in vars(_U["array"]).values():
+            if callable(getattr(f, "cache_clear", None)):
+                f.cache_clear()
+    reg = _history_registry(origin)
+    _U["regs"][4] = reg
+    _U["regid"][id(reg)] = 4
+    try:
+        hashes = {}
+        olds = []  # the leaf objects of phase 0: units created before the edits, used as operands later ("old")
+        phases = []
+        nlut = []
+        for ph in range(len(case["edits"]) + 1):
+            if ph > 0:
+                _apply_edit(reg, case["edits"][ph - 1])
+            nlut.append(len(reg.lut))
+            o = _run(case, 4, hashes, olds)
+            # dlut: rows the table's dict gained through the last event (T only: derived prefixed rows are written back)
+            o.update(hist=True, ph=ph, edits=case["edits"], origin=origin, dlut=nlut[ph] - nlut[ph - 1] if ph else 0)
+            phases.append(o)
+    finally:
+        _U["regs"][4] = long4
+        if reg is not long4:
+            _U["regid"].pop(id(reg), None)
+    if origin == "long":
+        _reset_registry4()
     return {"phases": phases}
 
 
@@ -468,6 +560,8 @@ def _run(case, hreg, hashes, olds=None):
         "hist": False,
         "ph": 0,
         "edits": [],
+        "origin": "-",
+        "dlut": 0,
         "hc": hc,
         "law": case["law"],
         "lv": case["lv"],
